@@ -11,6 +11,7 @@ import json
 import os
 import re
 import shutil
+import signal
 import subprocess
 import sys
 import tempfile
@@ -136,13 +137,22 @@ def run_group(group, tier="quick"):
                 if len(names) > 1 and not playback:
                     cmd += ["-j", str(cfg.get("jobs", min(8, len(names)))), "--output-format", "terse"]
                 t0 = time.time()
+                # own session, so that a timeout kills exactly this run's cargo-kani / kani-driver / cbmc / solver processes
+                # (a global `pkill cbmc` would also kill other checks running at the same time and make them look FAILED)
+                proc = subprocess.Popen(cmd, cwd=scratch, env=env, stdout=subprocess.PIPE, stderr=subprocess.PIPE, text=True, start_new_session=True)
                 try:
-                    p = subprocess.run(cmd, cwd=scratch, env=env, capture_output=True, text=True, timeout=timeout)
-                    return {"stdout": p.stdout, "stderr": p.stderr[-6000:], "rc": p.returncode, "cmd": " ".join(cmd), "wall": time.time() - t0}
-                except subprocess.TimeoutExpired as e:
-                    subprocess.run("pkill cbmc; pkill kani-driver; pkill cargo-kani", shell=True)
-                    so = e.stdout.decode() if isinstance(e.stdout, bytes) else (e.stdout or "")
-                    return {"stdout": so, "stderr": "timeout", "rc": -9, "cmd": " ".join(cmd), "wall": time.time() - t0, "timeout": True}
+                    so, se = proc.communicate(timeout=timeout)
+                    return {"stdout": so, "stderr": se[-6000:], "rc": proc.returncode, "cmd": " ".join(cmd), "wall": time.time() - t0}
+                except subprocess.TimeoutExpired:
+                    try:
+                        os.killpg(proc.pid, signal.SIGKILL)
+                    except ProcessLookupError:
+                        pass
+                    try:
+                        so, se = proc.communicate(timeout=30)
+                    except Exception:
+                        so = ""
+                    return {"stdout": so or "", "stderr": "timeout", "rc": -9, "cmd": " ".join(cmd), "wall": time.time() - t0, "timeout": True}
 
             raw = invoke([h["name"] for h in harnesses], playback=(len(harnesses) == 1))
             if not raw.get("timeout") and len(harnesses) > 1:
@@ -156,8 +166,10 @@ def run_group(group, tier="quick"):
                         extra += "\n" + r2["stdout"]
                     raw["playback_stdout"] = extra
             if not raw.get("timeout"):
-                with open(cpath, "w") as fh:
+                tmp = f"{cpath}.{os.getpid()}.tmp"
+                with open(tmp, "w") as fh:
                     json.dump(raw, fh)
+                os.replace(tmp, cpath)
         finally:
             shutil.rmtree(scratch, ignore_errors=True)
     out["cmd"] = raw["cmd"] + "   (in an injected scratch copy of /repo, see kx/inject.py)"
